@@ -176,8 +176,7 @@ class GroupBase:
         if n == 0:
             return np.zeros(0)
 
-        ret = [''] * n
-        _type_set = False
+        vals = [''] * n
 
         models = self.idx2model(idx, allow_none=allow_none)
 
@@ -189,15 +188,16 @@ class GroupBase:
             else:
                 val = default
 
-            # deduce the type for ret
-            if not _type_set:
-                if isinstance(val, str):
-                    ret = [''] * n
-                else:
-                    ret = np.zeros(n)
-                _type_set = True
+            vals[i] = val
 
-            ret[i] = val
+        # deduce the type for ret: a list if any value is a string (e.g., mixed
+        # numeric and string indices), a float array otherwise
+        if any(isinstance(val, str) for val in vals):
+            ret = vals
+        else:
+            ret = np.zeros(n)
+            for i, val in enumerate(vals):
+                ret[i] = val
 
         if single:
             ret = ret[0]
